@@ -130,8 +130,8 @@ def reviewTable : List (String × Review) := [
   ("x/assets/keeper/client_chain_asset.go:Keeper.GetAssetsDecimal:must:k.cdc.MustUnmarshal(value, &ret)", .codec),
   ("x/assets/keeper/client_chain_asset.go:Keeper.GetStakingAssetInfo:must:k.cdc.MustUnmarshal(value, &ret)", .codec),
   ("x/assets/keeper/operator_asset.go:Keeper.GetOperatorSpecifiedAssetInfo:must:k.cdc.MustUnmarshal(value, &ret)", .codec),
-  ("x/assets/keeper/operator_asset.go:Keeper.IterateAssetsForOperator:index:keys[1]", .inputChecked "ParseJoinedKey does not check the number of parts: every key of this store is written as GetJoinedStoreKey(a, b) (two parts joined by /) by UpdateOperatorAssetState / SetOperatorUSDValue, and bech32 / hex ids contain no /"),
-  ("x/assets/keeper/operator_asset.go:Keeper.IterateAssetsForOperator:index:keys[1]#2", .inputChecked "ParseJoinedKey does not check the number of parts: every key of this store is written as GetJoinedStoreKey(a, b) (two parts joined by /) by UpdateOperatorAssetState / SetOperatorUSDValue, and bech32 / hex ids contain no /"),
+  ("x/assets/keeper/operator_asset.go:Keeper.IterateAssetsForOperator:index:keys[1]", .invariant "C11_site_operator_asset_keys_two_parts"),
+  ("x/assets/keeper/operator_asset.go:Keeper.IterateAssetsForOperator:index:keys[1]#2", .invariant "C11_site_operator_asset_keys_two_parts"),
   ("x/assets/keeper/operator_asset.go:Keeper.IterateAssetsForOperator:must:k.cdc.MustMarshal(&amounts)", .codec),
   ("x/assets/keeper/operator_asset.go:Keeper.IterateAssetsForOperator:must:k.cdc.MustUnmarshal(iterator.Value(), &amounts)", .codec),
   ("x/assets/keeper/operator_asset.go:Keeper.UpdateOperatorAssetState:must:k.cdc.MustMarshal(&assetState)", .codec),
@@ -262,7 +262,7 @@ def reviewTable : List (String × Review) := [
   ("x/operator/keeper/usd_value.go:Keeper.GetAVSUSDValue:must:k.cdc.MustUnmarshal(value, &ret)", .codec),
   ("x/operator/keeper/usd_value.go:Keeper.GetOperatorOptedUSDValue:must:k.cdc.MustUnmarshal(value, &ret)", .codec),
   ("x/operator/keeper/usd_value.go:Keeper.GetVotePowerForChainID:conv:optedUSDValues.ActiveUSDValue.TruncateInt64()", .finding "F-11f"),
-  ("x/operator/keeper/usd_value.go:Keeper.IterateOperatorsForAVS:index:keys[1]", .inputChecked "ParseJoinedKey does not check the number of parts: every key of this store is written as GetJoinedStoreKey(a, b) (two parts joined by /) by UpdateOperatorAssetState / SetOperatorUSDValue, and bech32 / hex ids contain no /"),
+  ("x/operator/keeper/usd_value.go:Keeper.IterateOperatorsForAVS:index:keys[1]", .invariant "C11_site_avs_prefix_key_two_parts"),
   ("x/operator/keeper/usd_value.go:Keeper.IterateOperatorsForAVS:must:k.cdc.MustMarshal(&optedUSDValues)", .codec),
   ("x/operator/keeper/usd_value.go:Keeper.IterateOperatorsForAVS:must:k.cdc.MustUnmarshal(iterator.Value(), &optedUSDValues)", .codec),
   ("x/operator/keeper/usd_value.go:Keeper.SetAVSUSDValue:must:k.cdc.MustMarshal(&setValue)", .codec),
@@ -275,7 +275,7 @@ def reviewTable : List (String × Review) := [
   ("x/oracle/keeper/aggregator/context.go:AggregatorContext.PrepareRoundEndBlock:intdiv:delta % feeder.Interval <= not(block < 1) ; not(feederID == 0) ; not((feeder.EndBlock > 0 && feeder.EndBlock <= block) || feeder.StartBaseBlock > block)", .invariant "C11_site_params_validate_feeder"),
   ("x/oracle/keeper/aggregator/context.go:AggregatorContext.PrepareRoundEndBlock:intdiv:delta / feeder.Interval <= not(block < 1) ; not(feederID == 0) ; not((feeder.EndBlock > 0 && feeder.EndBlock <= block) || feeder.StartBaseBlock > block)", .invariant "C11_site_params_validate_feeder"),
   ("x/oracle/keeper/aggregator/filter.go:filter.addPSource:index:pSource.Prices[0]", .invariant "C11_site_oracle_sources_nonempty"),
-  ("x/oracle/keeper/cache/caches.go:Cache.AddCache:panic:panic(\"no other types are support\")", .assumed "all callers pass *ItemM, ItemP or ItemV (static types at the call sites)"),
+  ("x/oracle/keeper/cache/caches.go:Cache.AddCache:panic:panic(\"no other types are support\")", .guard "C11_guard_AddCache_default_unreachable"),
   ("x/oracle/keeper/cache/caches.go:cacheMsgs.commit:index:index.Index[i:]", .guard "C11_guard_commit_index_Index_i"),
   ("x/oracle/keeper/cache/caches.go:cacheParams.commit:index:index.Index[i:]", .guard "C11_guard_commit_index_Index_i_2"),
   ("x/oracle/keeper/common/types.go:BigIntList.Median:index:b[l/2-1]", .assumed "the calculator only takes the median of a round that holds at least one price"),
@@ -337,10 +337,10 @@ set_option maxRecDepth 100000 in
 theorem or a mechanical reason (findings, candidates, by-reading assumptions) -/
 theorem C11_review_counts :
     reviewTable.length = 220 ∧
-    (reviewTable.filter (·.2.isGuard)).length = 55 ∧
-    (reviewTable.filter (·.2.isInvariant)).length = 28 ∧
+    (reviewTable.filter (·.2.isGuard)).length = 56 ∧
+    (reviewTable.filter (·.2.isInvariant)).length = 31 ∧
     (reviewTable.filter (·.2.isFinding)).length = 1 ∧
-    (reviewTable.filter (·.2.isOpen)).length = 11 := by
+    (reviewTable.filter (·.2.isOpen)).length = 10 := by
   refine ⟨by rfl, by rfl, by rfl, by rfl, by rfl⟩
 
 /-- the sites of the open findings (F-11c: the unchecked slice accesses of parseBalanceChange; F-11f: the TruncateInt64 of an operator's USD value) are on block paths -/
@@ -589,6 +589,8 @@ theorem C11_cited_theorems : citedTheorems = [
   "C11_site_SortByPower_in_range",
   "C11_guard_SortByPower_sortedPowers_i",
   "C11_site_SortByPower_in_range",
+  "C11_site_operator_asset_keys_two_parts",
+  "C11_site_operator_asset_keys_two_parts",
   "C11_guard_ParseID_keys_0",
   "C11_guard_ParseID_keys_0_2",
   "C11_guard_ParseID_keys_1",
@@ -630,6 +632,7 @@ theorem C11_cited_theorems : citedTheorems = [
   "C11_guard_GetOperatorsForChainID_iterator_Key_len_prefix",
   "C11_guard_GetOptedInAVSForOperator_keys_1",
   "C11_guard_exact_SlashAssets",
+  "C11_site_avs_prefix_key_two_parts",
   "C11_site_oracle_sources_nonempty",
   "C11_site_oracle_sources_nonempty",
   "C11_site_oracle_sources_nonempty",
@@ -639,6 +642,7 @@ theorem C11_cited_theorems : citedTheorems = [
   "C11_site_params_validate_feeder",
   "C11_site_params_validate_feeder",
   "C11_site_oracle_sources_nonempty",
+  "C11_guard_AddCache_default_unreachable",
   "C11_guard_commit_index_Index_i",
   "C11_guard_commit_index_Index_i_2",
   "C11_guard_Median_b_l_2",
@@ -666,6 +670,7 @@ theorem C11_site_guards_are_proved : True := by
   have := @C11_guard_SortByPower_indices_j_3
   have := @C11_site_SortByPower_in_range
   have := @C11_guard_SortByPower_sortedPowers_i
+  have := @C11_site_operator_asset_keys_two_parts
   have := @C11_guard_ParseID_keys_0
   have := @C11_guard_ParseID_keys_0_2
   have := @C11_guard_ParseID_keys_1
@@ -705,8 +710,10 @@ theorem C11_site_guards_are_proved : True := by
   have := @C11_guard_GetOperatorsForChainID_iterator_Key_len_prefix
   have := @C11_guard_GetOptedInAVSForOperator_keys_1
   have := @C11_guard_exact_SlashAssets
+  have := @C11_site_avs_prefix_key_two_parts
   have := @C11_site_oracle_sources_nonempty
   have := @C11_site_params_validate_feeder
+  have := @C11_guard_AddCache_default_unreachable
   have := @C11_guard_commit_index_Index_i
   have := @C11_guard_commit_index_Index_i_2
   have := @C11_guard_Median_b_l_2
